@@ -98,7 +98,28 @@ func (m *rxMatcher) matchOne(pos int, set ByteSet, nonASCII func(rune) bool) (bo
 	}
 	if in.evalLit(in.tb.Lt(b, in.tb.Int(128))) <= 0 {
 		if !in.branch(in.tb.Lt(b, in.tb.Int(128))) {
-			unsup("symbolic non-ASCII byte in regexp input")
+			// a symbolic byte >= 0x80: the regexp package works on runes; decode symbolically
+			// (utf8 semantics incl. RuneError for invalid bytes) and test the class on the rune
+			r, w := in.decodeRune(m.s[pos:])
+			if c, ok := r.Int64(); ok {
+				return nonASCII(rune(c)), w
+			}
+			if lo, hi, ok := in.runeRange(r); ok && lo >= 0x80 && hi-lo <= 0x800 {
+				cond := in.tb.False
+				start := int64(-1)
+				for c := lo; c <= hi+1; c++ {
+					on := c <= hi && nonASCII(rune(c))
+					if on && start < 0 {
+						start = c
+					}
+					if !on && start >= 0 {
+						cond = in.tb.Or(cond, in.tb.And(in.tb.Le(in.tb.Int(start), r), in.tb.Le(r, in.tb.Int(c-1))))
+						start = -1
+					}
+				}
+				return in.branch(cond), w
+			}
+			unsup("symbolic three- or four-byte UTF-8 sequence in regexp input")
 		}
 	}
 	return in.branch(in.tb.InSet(b, set)), 1
